@@ -98,7 +98,7 @@ fn sniff_once(stream: &[u8], chunks: &[usize], pendings: u64, out_cap: usize) ->
     Ok((is_h2, out))
 }
 
-fn compositions_up_to_cuts(len: usize, max_cuts: usize, f: &mut impl FnMut(&[usize])) {
+pub fn compositions_up_to_cuts(len: usize, max_cuts: usize, f: &mut impl FnMut(&[usize])) {
     // choose cut positions 1..len-1, at most max_cuts of them
     fn rec(len: usize, start: usize, left: usize, cuts: &mut Vec<usize>, f: &mut impl FnMut(&[usize])) {
         // emit current
@@ -256,8 +256,8 @@ pub fn run_c08(args: &Args) -> i32 {
         }
         (evals, viols, classes.len())
     });
-    let mut evals = 0;
-    let mut distinct = 0;
+    let mut evals: u64 = 0;
+    let mut distinct: u64 = 0;
     for (e, viols, cl) in results {
         evals += e;
         distinct += cl as u64;
@@ -265,6 +265,16 @@ pub fn run_c08(args: &Args) -> i32 {
             run.violation(sig, what, rp);
         }
     }
+    // end-to-end clause: real clients through a fragmenting stream against the auto server vs a single-protocol server
+    std::panic::set_hook(Box::new(|_| {}));
+    let (e2e_n, e2e_distinct, e2e_viols) = crate::schedmc::c08e2e::run_all(thorough);
+    let _ = std::panic::take_hook();
+    for (sig, what, rp) in e2e_viols {
+        run.violation(sig, what, rp);
+    }
+    run.cov("e2e_differential_executions", e2e_n);
+    evals += e2e_n;
+    distinct += e2e_distinct;
     run.cov("evaluations", evals);
     run.cov("distinct_nontrivial", distinct);
     run.cov("streams", family.len() as u64);
@@ -285,7 +295,10 @@ pub fn run_c08(args: &Args) -> i32 {
 #[derive(Clone, Copy, Debug, PartialEq, Eq, Hash, PartialOrd, Ord)]
 enum Op {
     Write(usize),
+    /// slices [1,2]
     WriteVectored,
+    /// slices [2,1]: a short accept can cut the FIRST slice
+    WriteVectoredB,
     Flush,
     Shutdown,
     /// (cap, prefilled)
@@ -311,6 +324,9 @@ fn alphabet(thorough: bool) -> Vec<Step> {
     }
     for ans in [Ans::Accept(usize::MAX), Ans::Accept(1), Ans::Accept(2), Ans::Pending, err] {
         v.push(Step { op: Op::WriteVectored, ans });
+    }
+    for ans in [Ans::Accept(1), Ans::Accept(2)] {
+        v.push(Step { op: Op::WriteVectoredB, ans });
     }
     for ans in [Ans::Ok, Ans::Pending, err] {
         v.push(Step { op: Op::Flush, ans });
@@ -487,6 +503,7 @@ fn run_sequence(ad: &AdapterDef, seq: &[Step], vectored_inner: bool) -> Result<u
         let seen = match st.op {
             Op::Write(n) => subj.write(&b"XYZ"[..n]),
             Op::WriteVectored => subj.write_vectored(b"U", b"VW"),
+            Op::WriteVectoredB => subj.write_vectored(b"UV", b"W"),
             Op::Flush => subj.flush(),
             Op::Shutdown => subj.shutdown(),
             Op::Read(cap, pre) => subj.read(cap, pre),
@@ -500,7 +517,7 @@ fn run_sequence(ad: &AdapterDef, seq: &[Step], vectored_inner: bool) -> Result<u
             return Err(format!("{m}; {}", ctx()));
         }
         match st.op {
-            Op::Write(_) | Op::WriteVectored => {
+            Op::Write(_) | Op::WriteVectored | Op::WriteVectoredB => {
                 let offered: Vec<u8> = match st.op {
                     Op::Write(n) => b"XYZ"[..n].to_vec(),
                     _ => b"UVW".to_vec(),
@@ -688,7 +705,7 @@ pub fn run_c18(args: &Args) -> i32 {
                     let seq = decode(code, d, &alpha);
                     for vectored in [false, true] {
                         // the vectored flag only matters when a vectored write occurs
-                        if vectored && !seq.iter().any(|s| s.op == Op::WriteVectored) {
+                        if vectored && !seq.iter().any(|s| matches!(s.op, Op::WriteVectored | Op::WriteVectoredB)) {
                             continue;
                         }
                         n += 1;
